@@ -9,6 +9,7 @@
 import GormModel.Model.SchemaCache
 import GormModel.Lemmas.SchemaCache
 import GormModel.Lemmas.SharedWrites
+import GormModel.Lemmas.WhereSwap
 namespace Gorm
 open Gorm.SchemaCache
 
@@ -41,6 +42,35 @@ theorem C07_cache_deadlock_free (c : Cfg) (progs : List (List Nat)) (sched : Lis
     (∃ t, doneT (scReach c progs sched) t = false) → ∃ t, (step c (scReach c progs sched) t).isSome = true :=
   SchemaCache.deadlock_free c progs sched
 
+
+/-! ### partial results: hypothesis = negation of the F10/F12 pattern (no relation between DIFFERENT model types) -/
+
+/-- Without relations between different model types, getOrParse only ever hands a parser a schema allocated by its own
+  goroutine (the self reference): no goroutine receives another goroutine's unfinished schema. -/
+theorem C07_getOrParse_own_partial (c : Cfg) (h : OnlySelfRels c) (progs : List (List Nat)) (sched : List Nat) :
+    ∀ g ∈ (scReach c progs sched).gets, ((scReach c progs sched).objs g.obj).ownT = g.tid :=
+  SchemaCache.gets_own_partial c h progs sched
+
+/-- … and no back reference is ever written into any schema object (so nothing is written into a schema after it was returned). -/
+theorem C07_backref_none_partial (c : Cfg) (h : OnlySelfRels c) (progs : List (List Nat)) (sched : List Nat) :
+    ∀ o, ((scReach c progs sched).objs o).backs = [] :=
+  SchemaCache.backs_nil_partial c h progs sched
+
+/-- In general (any relation graph): what getOrParse hands out has at least been published by LoadOrStore and is a schema
+  of the relation's target type — its fields are complete, its relations possibly not. -/
+theorem C07_getOrParse_published (c : Cfg) (progs : List (List Nat)) (sched : List Nat) :
+    ∀ g ∈ (scReach c progs sched).gets,
+      ((scReach c progs sched).objs g.obj).stamp ≠ 0 ∧
+      ∃ r, (relsOf c g.ty)[g.k]? = some r ∧ ((scReach c progs sched).objs g.obj).ty = r.target :=
+  SchemaCache.gets_published c progs sched
+
+/-- non-vacuity of the hypothesis: a self-referential model (manager / team) -/
+example : OnlySelfRels [[⟨0, false, false⟩, ⟨0, true, false⟩]] := by
+  intro ty r hr
+  match ty with
+  | 0 => simp [relsOf] at hr; rcases hr with h | h <;> simp [h]
+  | n + 1 => simp [relsOf] at hr
+
 /-! ### negative results (kernel-checked concrete schedules) -/
 
 /-- two mutually related models: type 0 has-many type 1, type 1 belongs-to type 0 -/
@@ -57,6 +87,38 @@ theorem C07_getOrParse_sees_partial_example :
     ∃ g ∈ (scReach scCfgAB [[0], [1]] scSchedPartial).gets,
       g.closedAtGet = false ∧ g.nrelAtGet < (relsOf scCfgAB ((scReach scCfgAB [[0], [1]] scSchedPartial).objs g.obj).ty).length := by
   refine ⟨⟨1, 1, 0, 0, false, 0⟩, ?_, ?_⟩ <;> decide
+
+
+/-- the schedule of `C07_getOrParse_sees_partial_example` continued: thread 1 finishes its parse of type 1 (fin1, fin2:
+  the schema is closed and RETURNED to the goroutine), then thread 0 continues with its first relation field -/
+def scSchedLateBack1 : List Nat := scSchedPartial ++ [1, 1, 1, 1]
+def scSchedLateBack2 : List Nat := scSchedLateBack1 ++ [0, 0]
+
+/-- F12 at model level: a back reference is written (under Mux) into a schema object that is already closed and has been
+  returned to a caller — who reads `Relationships.Relations` without taking Mux. -/
+theorem C07_backref_after_return_example :
+    (∃ r ∈ (scReach scCfgAB [[0], [1]] scSchedLateBack1).rets, r.obj = 1 ∧ r.err = false ∧ r.closedAtRet = true) ∧
+    ((scReach scCfgAB [[0], [1]] scSchedLateBack1).objs 1).backs = [] ∧
+    ((scReach scCfgAB [[0], [1]] scSchedLateBack2).objs 1).backs = [(0, 0)] := by
+  refine ⟨⟨⟨1, 1, 1, false, false, true, 1⟩, ?_, ?_⟩, ?_, ?_⟩ <;> decide +kernel
+
+/-! ### clause.Where.Build on a shared handle (finding F11) -/
+
+open Gorm.WhereSwap in
+/-- A statement built from a shared handle assigns NO cell of the handle's `Exprs` array unless the WHERE list starts with a
+  single Or (extra hypothesis = negation of the F11 pattern). -/
+theorem C07_where_build_readonly_partial (es : List EK) (h : es.head? ≠ some .singleOr) : writes es = [] :=
+  writes_nil_of_head es h
+
+open Gorm.WhereSwap in
+/-- exact characterisation of when `Where.Build` writes to the shared array -/
+theorem C07_where_build_writes_iff (es : List EK) :
+    writes es ≠ [] ↔ (es.head? = some .singleOr ∧ EK.other ∈ es) :=
+  writes_ne_nil_iff es
+
+open Gorm.WhereSwap in
+/-- F11: `db.Or(a).Where(b)` — Build swaps cells 0 and 1 of the shared array in place -/
+theorem C07_where_swap_write_counterexample : writes [EK.singleOr, EK.other] = [0, 1] := by decide
 
 /-- a model whose only relation field is invalid -/
 def scCfgBad : Cfg := [[⟨0, false, true⟩]]
